@@ -1468,62 +1468,42 @@ bool DOMLSSerializerImpl::reportError(const DOMNode* const    errorNode
 void DOMLSSerializerImpl::procCdataSection(const XMLCh*   const nodeValue
                                    , const DOMNode* const nodeToWrite)
 {
-    static const XMLSize_t offset = XMLString::stringLen(gEndCDATA);
-
     /***
-     * Append a ']]>' at the end
+     * A CDATA section cannot contain ']]>': wherever the value does, the
+     * section is split between ']]' and '>', so that no character of the
+     * value is lost ("a]]>b" becomes <![CDATA[a]]]]><![CDATA[>b]]>).
      */
-    XMLSize_t len = XMLString::stringLen(nodeValue);
-    XMLCh* repNodeValue = (XMLCh*) fMemoryManager->allocate
-    (
-        (len + offset + 1) * sizeof(XMLCh)
-    );//new XMLCh [len + offset + 1];
-    XMLString::copyString(repNodeValue, nodeValue);
-    XMLString::catString(repNodeValue, gEndCDATA);
-    ArrayJanitor<XMLCh>  jName(repNodeValue, fMemoryManager);
-
-    XMLCh* curPtr  = (XMLCh*) repNodeValue;
-    XMLCh* nextPtr = 0;
-    int    endTagPos = -1;
-
-    bool   endTagFound = true;
-
-    while (endTagFound)
+    if (!*nodeValue)
     {
-        endTagPos = XMLString::patternMatch(curPtr, gEndCDATA);
-        if (endTagPos != -1)
-        {
-            nextPtr = curPtr + endTagPos + offset;  // skip the ']]>'
-            *(curPtr + endTagPos) = chNull;         //nullify the first ']'
-            if (XMLSize_t(endTagPos) != len)
-                reportError(nodeToWrite, DOMError::DOM_SEVERITY_WARNING, XMLDOMMsg::Writer_NestedCDATA);
-            len = len - endTagPos - offset;
-        }
-        else
-        {
-            endTagFound = false;
-        }
+        TRY_CATCH_THROW
+        (
+            *fFormatter << XMLFormatter::NoEscapes << gStartCDATA << gEndCDATA;
+        )
+        return;
+    }
 
-        /***
-            to check ]]>]]>
-        ***/
-        if (endTagPos == 0)
+    const XMLCh* curPtr = nodeValue;
+    for (;;)
+    {
+        const int endTagPos = XMLString::patternMatch(curPtr, gEndCDATA);
+        if (endTagPos == -1)
         {
-            TRY_CATCH_THROW
-            (
-                *fFormatter << XMLFormatter::NoEscapes << gStartCDATA << gEndCDATA;
-            )
-        }
-        else
-        {
+            // the rest of the value
             procUnrepCharInCdataSection(curPtr, nodeToWrite);
+            break;
         }
 
-        if (endTagFound)
-        {
-            *(nextPtr - offset) = chCloseSquare;   //restore the first ']'
-            curPtr = nextPtr;
-        }
+        reportError(nodeToWrite, DOMError::DOM_SEVERITY_WARNING, XMLDOMMsg::Writer_NestedCDATA);
+
+        // everything up to and including the ']]'
+        const XMLSize_t pieceLen = (XMLSize_t)endTagPos + 2;
+        XMLCh* piece = (XMLCh*) fMemoryManager->allocate((pieceLen + 1) * sizeof(XMLCh));
+        ArrayJanitor<XMLCh> janPiece(piece, fMemoryManager);
+        XMLString::copyNString(piece, curPtr, pieceLen);
+        procUnrepCharInCdataSection(piece, nodeToWrite);
+
+        // the next piece starts at the '>'
+        curPtr += pieceLen;
     }
 }
 
